@@ -1542,6 +1542,98 @@ func (e *Engine) constFormatObligations(p string) []*Obligation {
 	return out
 }
 
+// fieldsComparedObligations: "fieldscompared" - a comparison that is meant to
+// cover the whole content of a struct reads every field of it (a field added
+// to the struct but not to the comparison makes two different objects equal).
+func (e *Engine) fieldsComparedObligations(p string) []*Obligation {
+	var out []*Obligation
+	for _, r := range e.cs.FieldsCompared {
+		if !hasProp(r.Props, p) {
+			continue
+		}
+		detail := ""
+		var roots []*ssa.Function
+		for _, k := range r.Funcs {
+			f, ok := e.funcByKey[k]
+			if !ok {
+				detail = "unknown function " + k
+				break
+			}
+			roots = append(roots, f)
+		}
+		var st *types.Struct
+		if detail == "" {
+			if obj := roots[0].Pkg.Pkg.Scope().Lookup(r.Type); obj != nil {
+				st, _ = obj.Type().Underlying().(*types.Struct)
+			}
+			if st == nil {
+				detail = "unknown struct type " + r.Type
+			}
+		}
+		if detail == "" {
+			named := roots[0].Pkg.Pkg.Scope().Lookup(r.Type).Type()
+			isT := func(t types.Type) bool {
+				if pt, ok := t.Underlying().(*types.Pointer); ok {
+					t = pt.Elem()
+				}
+				return types.Identical(t, named)
+			}
+			read := map[string]bool{}
+			seen := map[*ssa.Function]bool{}
+			work := append([]*ssa.Function{}, roots...)
+			for len(work) > 0 {
+				f := work[len(work)-1]
+				work = work[:len(work)-1]
+				if seen[f] {
+					continue
+				}
+				seen[f] = true
+				work = append(work, f.AnonFuncs...)
+				for _, b := range f.Blocks {
+					for _, ins := range b.Instrs {
+						switch x := ins.(type) {
+						case *ssa.FieldAddr:
+							if isT(x.X.Type()) {
+								read[st.Field(x.Field).Name()] = true
+							}
+						case *ssa.Field:
+							if isT(x.X.Type()) {
+								read[st.Field(x.Field).Name()] = true
+							}
+						case ssa.CallInstruction:
+							if c := x.Common().StaticCallee(); c != nil && c.Pkg == roots[0].Pkg && c.Blocks != nil {
+								work = append(work, c)
+							}
+						}
+					}
+				}
+			}
+			var missing []string
+			for i := 0; i < st.NumFields(); i++ {
+				n := st.Field(i).Name()
+				skip := false
+				for _, x := range r.Except {
+					skip = skip || x == n
+				}
+				if !skip && !read[n] {
+					missing = append(missing, n)
+				}
+			}
+			if len(missing) > 0 {
+				detail = "field(s) of " + r.Type + " not read by the comparison: " + strings.Join(missing, ", ")
+			}
+		}
+		ft := e.newFT(nil)
+		goal := "true"
+		if detail != "" {
+			goal = "false"
+		}
+		out = append(out, &Obligation{Name: "scan/fieldscompared " + r.Type, Kind: "scan", Props: r.Props, Func: "scan", Pos: fmt.Sprintf("%s:%d", filepath.Base(r.File), r.Line),
+			Text: "every content field of " + r.Type + " is read by " + strings.Join(r.Funcs, ", "), Goal: goal, Reach: "true", ft: ft, SrcLine: detail})
+	}
+	return out
+}
+
 func shortKey(k string) string {
 	if i := strings.LastIndex(k, "/"); i >= 0 {
 		return k[i+1:]
